@@ -1,5 +1,5 @@
 CONSTANTS MaxK = 4
-          NP = 10
+          NP = 11
 INIT Init
 NEXT Next
 CHECK_DEADLOCK FALSE
